@@ -83,13 +83,71 @@ def r21_1(ctx, rep):
            "save_model writes the final file in place (%s) and load_model does not convert %s into InvalidCacheError: an empty or "
            "half-written cache file makes every later transfer_model raise instead of recompiling" % (opens_final, missing_all))
     rep.extra["R21.1_discipline"] = {"atomic_publish": atomic, "total_loader": total}
-    # R21.3 advisory
+    # advisory
     sv = ctx.func(API, "save_model", R)
     for w in ast.walk(sv):
         if isinstance(w, ast.With) and any("open(" in norm(i.context_expr) for i in w.items):
             heavy = [norm(c)[:50] for s in w.body for c in calls(s) if call_name(c) in ("ca.depends_on", "ca.symvar")]
             if heavy:
-                rep.note("R21.3 (advisory) dependency analysis runs while the cache file is open for writing: %s" % heavy[:2])
+                rep.note("R21.1 (advisory) dependency analysis runs while the cache file is open for writing: %s" % heavy[:2])
+
+
+def _closure(ctx, R, root):
+    """module-level functions of api.py reachable from `root` through direct calls by name"""
+    mod = ctx.module(API)
+    fns = {n.name: n for n in mod.body if isinstance(n, (ast.FunctionDef, ast.AsyncFunctionDef))}
+    seen, todo = [], [root]
+    while todo:
+        f = todo.pop()
+        if f in seen or f not in fns:
+            continue
+        seen.append(f)
+        for c in ast.walk(fns[f]):
+            if isinstance(c, ast.Call) and isinstance(c.func, ast.Name) and c.func.id in fns:
+                todo.append(c.func.id)
+    return [fns[f] for f in seen]
+
+
+@SPEC.rule(
+    "R21.3",
+    "the writer tolerates what a killed writer leaves behind: every file that save_model (or a helper it calls) opens "
+    "for writing is opened in a truncating mode ('w'/'wb'); exclusive creation ('x', os.O_EXCL) makes every later save "
+    "fail with FileExistsError on a left-over file, and append/update modes ('a', '+') keep the torn bytes",
+)
+def r21_3(ctx, rep):
+    R = "R21.3"
+    fns = _closure(ctx, R, "save_model")
+    if not fns:
+        raise AnalysisError(R, "save_model not found")
+    n = 0
+    for fn in fns:
+        for c in ast.walk(fn):
+            if not isinstance(c, ast.Call):
+                continue
+            name = call_name(c) or ""
+            mode = None
+            if name == "open" or name.endswith(".open") and name != "os.open":
+                margs = [a for a in c.args[1:2]] if name == "open" else [a for a in c.args[0:1]]
+                mode_node = margs[0] if margs else next((k.value for k in c.keywords if k.arg == "mode"), None)
+                mode = const_str(mode_node) if mode_node is not None else "r"
+                if mode is None:
+                    rep.ob(R, API + ":" + fn.name, "open mode of `%s`" % norm(c)[:60], False, "the open mode is not a literal; cannot show that the file is truncated")
+                    continue
+                if not any(ch in mode for ch in "wax+"):
+                    continue
+                n += 1
+                rep.ob(R, API + ":" + fn.name, "open mode of `%s`" % norm(c)[:60], "w" in mode and "+" not in mode,
+                       "mode %r: %s" % (mode, "an exclusive create fails with FileExistsError on the file a killed writer left behind, and "
+                                        "transfer_model does not handle it — one interrupted write breaks every later transfer_model" if "x" in mode
+                                        else "the file keeps bytes of an earlier, possibly interrupted, write"))
+            elif name == "os.open":
+                flags = norm(c.args[1]) if len(c.args) > 1 else ""
+                n += 1
+                rep.ob(R, API + ":" + fn.name, "os.open flags `%s`" % flags[:50], "O_EXCL" not in flags and ("O_TRUNC" in flags or "O_RDONLY" in flags),
+                       "os.open with O_EXCL / without O_TRUNC does not tolerate a left-over file")
+    if n < 1:
+        raise MechanismMissing(R, "no file opened for writing found under save_model")
+    rep.extra["R21.3_functions"] = [f.name for f in fns]
 
 
 def _only_raises(body) -> bool:
@@ -157,3 +215,15 @@ def _m3(mod):
         return False
 
     return mod if replace_in_func(mod, "transfer_model", edit) else None
+
+
+@SPEC.mutant("cache file created exclusively", API, "R21.3", "open mode")
+def _m_excl(mod):
+    def edit(fn):
+        for c in ast.walk(fn):
+            if isinstance(c, ast.Call) and is_name(c.func, "open") and len(c.args) > 1 and const_str(c.args[1]) == "wb":
+                c.args[1] = ast.Constant(value="xb")
+                return True
+        return False
+
+    return mod if replace_in_func(mod, "save_model", edit) else None
